@@ -35,6 +35,9 @@ type c15Case struct {
 	NoExpiry bool // avoid never-started topics older than GCExpire and idle periods longer than GCExpire
 	// Intr: operations executed in the middle of other operations, at yield points of the buffer
 	Intr []c15Intr `json:",omitempty"`
+	// TopicShape: how topic numbers become topic bytes (the buffer receives topics from the network and must cope with any length):
+	// 0 32 bytes; 1 two bytes; 2 length by topic number (2, 3, 32, 45 bytes); 3 tiny (topic 0 empty, 1..255 one byte, others two bytes)
+	TopicShape int `json:",omitempty"`
 }
 
 type c15Intr struct {
@@ -54,6 +57,7 @@ func genC15(maxOps int) func(t *rapid.T) c15Case {
 		var c c15Case
 		c.Limit = rapid.IntRange(2, 4).Draw(t, "limit")
 		c.Expire = rapid.IntRange(2, 4).Draw(t, "expire")
+		c.TopicShape = rapid.SampledFrom([]int{0, 0, 0, 1, 2, 3}).Draw(t, "topicshape")
 		if rapid.IntRange(0, 4).Draw(t, "template") == 0 {
 			// history template "partial expiry": one sender has buffered topics of different ages, a collection expires
 			// only the old ones, then the sender opens further topics; finally everything is started
@@ -193,10 +197,39 @@ func (h *c15Handler) HandleMessage(m *tss.IncMessage) {
 	h.mu.Unlock()
 }
 
-func c15Topic(i int) []byte {
-	b := make([]byte, 32)
-	b[0], b[1], b[2] = byte(i>>8), byte(i), 0x5A
+func c15Topic(i, shape int) []byte {
+	n := 32
+	switch shape {
+	case 1:
+		n = 2
+	case 2:
+		n = []int{2, 3, 32, 45}[i%4]
+	case 3:
+		switch {
+		case i == 0:
+			return []byte{}
+		case i < 256:
+			return []byte{byte(i)}
+		default:
+			n = 2
+		}
+	}
+	b := make([]byte, n)
+	b[0], b[1] = byte(i>>8), byte(i)
+	if n > 2 {
+		b[2] = 0x5A
+	}
 	return b
+}
+
+func c15TopicNo(b []byte) int {
+	switch len(b) {
+	case 0:
+		return 0
+	case 1:
+		return int(b[0])
+	}
+	return int(b[0])<<8 | int(b[1])
 }
 
 type c15Info struct {
@@ -302,7 +335,7 @@ func runC15(c c15Case) *vh.Outcome {
 			h.mu.Unlock()
 			for _, im := range log {
 				var tp, sq int
-				tp = int(im.Topic[0])<<8 | int(im.Topic[1])
+				tp = c15TopicNo(im.Topic)
 				fmt.Sscanf(string(im.Data), "%d", &sq)
 				k := fmt.Sprintf("%d/%d/%d", tp, im.Source, sq)
 				m := byKey[k]
@@ -401,7 +434,7 @@ func runC15(c c15Case) *vh.Outcome {
 						info.MustAccept++
 					}
 					guard("HandleMessage", func() {
-						box.HandleMessage(&tss.IncMessage{MsgType: uint8(tss.MsgTypeMPC), Source: uint16(op.Sender), Topic: c15Topic(op.Topic), Data: []byte(fmt.Sprintf("%d", sq))})
+						box.HandleMessage(&tss.IncMessage{MsgType: uint8(tss.MsgTypeMPC), Source: uint16(op.Sender), Topic: c15Topic(op.Topic, c.TopicShape), Data: []byte(fmt.Sprintf("%d", sq))})
 					})
 					collect()
 					if fail == nil && m.mustHold && m.handed > 0 {
@@ -429,7 +462,7 @@ func runC15(c c15Case) *vh.Outcome {
 				// operations may be executed in the middle of this Send (intrusions at the collector's yield points, after the
 				// Send's own hand-over): everything the model books for THIS Send uses the epoch and the history at its start
 				e0, nSends := epoch, len(sendEpochs)
-				guard("Send", func() { box.Send(uint8(tss.MsgTypeMPC), c15Topic(op.Topic), []byte("x"), 1) })
+				guard("Send", func() { box.Send(uint8(tss.MsgTypeMPC), c15Topic(op.Topic, c.TopicShape), []byte("x"), 1) })
 				collect()
 				if fail != nil {
 					break
@@ -602,7 +635,7 @@ func runC15(c c15Case) *vh.Outcome {
 			}
 			for tp := range topics {
 				clock++
-				guard("Send", func() { box.Send(uint8(tss.MsgTypeMPC), c15Topic(tp), []byte("flush"), 1) })
+				guard("Send", func() { box.Send(uint8(tss.MsgTypeMPC), c15Topic(tp, c.TopicShape), []byte("flush"), 1) })
 				collect()
 			}
 			for _, m := range all {
